@@ -93,7 +93,14 @@ def run(ctx):
     cs = ctx.cmp_stmts(F)
     enough = [c for c in cs if c[2] in ('Lt', 'Ge') and 'HashMap::len' in calls(org(du, c[3])) and 'Peers::required_peers_count' in calls(org(du, c[4]))]
     # guards, not anchors: a missing test is a finding
-    ctx.ob('C07.r2', F.name, 'the number of proven peers is compared with the quorum both before and after dropping contradicting peers', len(enough) >= 2, found=len(enough))
+    # (the test BEFORE the cleaning was removed by fix F69: finding contradicting peers needs no quorum; the one after it guards
+    # the finalization and is what the property needs)
+    ctx.ob('C07.r2', F.name, 'the number of proven peers is compared with the quorum after dropping contradicting peers', len(enough) >= 1, found=len(enough))
+    rm = P.call_sites(F, lambda k, t: k.endswith('HashMap::remove'))
+    for c in enough[:1]:
+        ctx.ob('C07.r2', F.name, 'the quorum test follows the removal of contradicting peers',
+               bool(rm) and all(c[0] in cfg.reachable_from(cfg.succ[b]) for b, _ in rm) and not any(b in cfg.reachable_from(cfg.succ[c[0]]) for b, _ in rm),
+               removals=len(rm))
     for c in enough:
         ctx.stmt_guard('C07.r2', F, [c], 'false' if c[2] == 'Lt' else 'true', sinks, gname='peers_with_data.len() %s required' % ('<' if c[2] == 'Lt' else '>='))
     quorum = [c for c in cs if c[2] in ('Ge', 'Lt') and 'Peers::required_peers_count' in calls(org(du, c[4])) and c not in enough
